@@ -49,6 +49,13 @@ class StreamWorld(QueryWorld):
             return d
         return super().load_attr(ip, obj, attr, node)
 
+    def node_equals_value(self, ip, n, v, node):
+        """Is the id of node n the same value as this instant / string?  Node ids are arbitrary hashables (integer ids in the
+        range of the snapshot ids are the common case), so both answers are explored - once per (node, value)."""
+        if getattr(self, "id_collisions", None) != n.role:
+            return False
+        return self.choose(("node-id-equals", n.role, repr(v)))
+
     def call_method(self, ip, obj, name, args, kwargs, node):
         if isinstance(obj, SelfV) and name == "stream_interactions" and not args:
             return IterV([TupleV([NodeV(s), NodeV(d), Const(op), T(k)]) for (s, d, op, k) in self.events])
@@ -101,6 +108,20 @@ def check_inter_event(repo: Repo, rep: Report):
                 sel = [k for (s, d, _, k) in events if (side in ("both", "out") and s == node) or (side in ("both", "in") and d == node)]
                 got, r = run({"self": SelfV(), "u": NodeV(node), "v": NONE}, events, TIMELINES[0][1])
                 _cmp(rep, construct, "node(%s)" % side, "%s, node %s" % (label, node), got, r, _gaps(sel))
+                if node == "A" and events:
+                    # the id of the queried node may coincide with an instant or an op string of the stream
+                    def once(ch, events=events):
+                        w = StreamWorld(cls, shape, ch, methods, functions, events, TIMELINES[0][1])
+                        w.id_collisions = "A"
+                        ip = Interp(w, ot, max_depth=6)
+                        try:
+                            return to_py(ip.call_function(fn, {"self": SelfV(), "u": NodeV("A"), "v": NONE})), None
+                        except AbstractRaise as r_:
+                            return None, r_
+                    for ch, (got2, r2) in run_all_choices(once, max_runs=64):
+                        if any(ch.values()):
+                            _cmp(rep, construct, "node(%s):id-equals-a-value-of-the-stream" % side, "%s, node A whose id equals %s" % (
+                                label, [k[2] for k, v_ in ch.items() if v_]), got2, r2, _gaps(sel))
         for label, tl in TIMELINES:
             n += 1
             pts = []
